@@ -280,6 +280,43 @@ def rule_work_layout(mod, rep):
                                         trip = padd(bnd[1], start[0][1], -1)
                                         need = pmul(trip, stride[1])
             if need is None:
+                # indexed form: TriTmp = tempv + (jj - start) * stride (or tempv + jw * stride with jw counting from 0) inside a counted loop
+                loops_lb = [(h, body, loop_bound(g, h, body)) for h, body in g.loops()]
+                for x in g.insts():
+                    if x.op != "getelementptr" or strip_casts(g, x.ops[0]) != ["a", kt]:
+                        continue
+                    idx = gep_index(g, ["v", x.i])
+                    if idx is None:
+                        continue
+                    idx = strip_casts(g, idx)
+                    if idx[0] != "v" or g.inst[idx[1]].op != "mul":
+                        continue
+                    m_ = g.inst[idx[1]]
+                    for ka_ in (0, 1):
+                        e = strip_casts(g, m_.ops[ka_]); t_ = m_.ops[1 - ka_]
+                        sub_x = None
+                        if e[0] == "v" and g.inst[e[1]].op == "sub":
+                            sub_x = g.inst[e[1]].ops[1]; e = strip_casts(g, g.inst[e[1]].ops[0])
+                        if e[0] != "v" or g.inst[e[1]].op != "phi":
+                            continue
+                        for (h, body, lb) in loops_lb:
+                            if not lb or lb[0].i != e[1] or x.bb.id not in body:
+                                continue
+                            cnt = lb[0]
+                            start = [Sg.poly(oo) for oo, bb in zip(cnt.ops, cnt.inb) if bb not in body]
+                            bnd = Sg.poly(lb[2]); stride = Sg.poly(t_)
+                            if not (start and start[0] and bnd and stride and start[0][0] == "p" and bnd[0] == "p" and stride[0] == "p"):
+                                continue
+                            if sub_x is not None:
+                                sx = Sg.poly(sub_x)
+                                if not sx or sx[0] != "p" or sx[1] != start[0][1]:
+                                    continue
+                            elif start[0][1]:
+                                continue          # counter used directly as the column number must start at 0
+                            nd = pmul(padd(bnd[1], start[0][1], -1), stride[1])
+                            if need is None or pge(nd, need):
+                                need = nd
+            if need is None:
                 rep.brk("ANALYSIS-BROKEN LAYOUT: tempv walk of %s not recognised" % cons)
                 continue
             ok = any(pge(a, need) for a in tempv_alts)
